@@ -4,16 +4,17 @@
 # and the unedited test suite passes with the patch.  Prints a one-line summary.
 set -u
 ID=$1; PKG=$2; RUN=$3
-MUT=${MUT:-/tmp/mut}; WT=${WTP:-/tmp/wt_}${ID,,}
+MUT=${MUT:-/tmp/mut}; WT=${WT:-${WTP:-/tmp/wt_}${ID,,}}; FLAGS=${DEMO_FLAGS:-}
 export GOFLAGS=-mod=mod GOPROXY=off GOSUMDB=off GOTOOLCHAIN=local
 cd $WT || exit 2
 git checkout -q -- . ; git apply $MUT/$ID/patch.diff || { echo "$ID patch does not apply"; exit 2; }
 cp $MUT/$ID/demo/*_test.go $PKG/ 2>/dev/null
-go test -count=1 -run "$RUN" ./$PKG/ > $MUT/$ID/with.log 2>&1; W=$?
+go test -count=1 $FLAGS -run "$RUN" ./$PKG/ > $MUT/$ID/with.log 2>&1; W=$?
 git checkout -q -- .
-go test -count=1 -run "$RUN" ./$PKG/ > $MUT/$ID/without.log 2>&1; WO=$?
+go test -count=1 $FLAGS -run "$RUN" ./$PKG/ > $MUT/$ID/without.log 2>&1; WO=$?
 git apply $MUT/$ID/patch.diff
 mkdir -p $MUT/$ID/hold; mv $PKG/zz_*_test.go $MUT/$ID/hold/ 2>/dev/null
 go build ./... > $MUT/$ID/suite.log 2>&1 && go test -count=1 ./... >> $MUT/$ID/suite.log 2>&1; S=$?
 mv $MUT/$ID/hold/* $PKG/ 2>/dev/null
 echo "$ID demo_with_patch_exit=$W demo_without_patch_exit=$WO suite_with_patch_exit=$S"
+git checkout -q -- . ; rm -f $PKG/zz_*_test.go
